@@ -388,7 +388,8 @@ def thread_worker(task):
 
     opfuncs = ("__new__", "__init__", "__enter__", "__exit__", "protect_via_deepcopy") if task.get("opcodes") else ()
     stats = sched.explore(make, ["spec_classes/utils/mutation.py"], bound, judge, opcode_funcs=opfuncs,
-                          setup=lambda: reset_protection(initial, coop=True), max_executions=task.get("max_executions"))
+                          setup=lambda: reset_protection(initial, coop=True), max_executions=task.get("max_executions"),
+                          shard=task.get("shard"))
     reset_protection("none")
     C.rec["states"] = stats["executions"]
     C.rec["extra"]["schedules"] = stats["executions"]
@@ -483,6 +484,13 @@ def main(run):
     for i in range(4):
         tasks.append({"part": "random", "kinds": ["flat", "nested", "list"][: 2 + i % 2], "initial": "none",
                       "seed": run.seed * 100 + i, "runs": 50 if quick else 500})
+    sharded = []
+    for t in tasks:
+        if t["part"] == "threads":
+            sharded += [dict(t, shard=(k, 4)) for k in range(4)]
+        else:
+            sharded.append(t)
+    tasks = sharded
     # biggest first
     tasks.sort(key=lambda t: (t["part"] != "threads", -len(t.get("kinds", [])) * t.get("bound", 0)))
     for rec in pmap(work, tasks):
